@@ -510,7 +510,7 @@ func TestVerifC10(t *testing.T) {
 	rep := kit.NewReport("C10")
 	cfg := rep.Cfg()
 	defer rep.Flush()
-	rep.Set("rule", "two case lists. Enumerated: for 6 base files (GGUF v1/v2/v3, little/big endian, plain and rich metadata) every 4/8-byte length/count/type/dims/kind/offset field set to each of 19 boundary values (0,1,2^31+-1,2^32+-1,2^63+-1,2^64-1,...) and to file-size-relative values, every value-type/array-type/tensor-kind code, every truncation of the file, and each of 15 well-known keys re-typed to each of the 13 value types. Random: PRNG(seed,'C10',i) valid file (random version/endianness/extra KVs/tensors with hostile dims and kinds) with 1-3 mutations (hostile field value, bit flip, truncation). Each input is decoded with maxArraySize 0 and -1 and, if decoding succeeds, the accessors the server calls on untrusted files at create/show time are invoked. Oracle: no panic (recovered, site recorded), allocation per call <= 64 x len(input) + 8 MiB (runtime/metrics heap allocs), the process (ulimit -v 2 GiB) survives; each input is journalled before the call. Non-trivial & distinct = distinct (mutation kind, field kind, outcome in {decoded, error}) classes plus distinct error texts")
+	rep.Set("rule", "two case lists. Enumerated: for 6 base files (GGUF v1/v2/v3, little/big endian, plain and rich metadata) every 4/8-byte length/count/type/dims/kind/offset field set to each of 19 boundary values (0,1,2^31+-1,2^32+-1,2^63+-1,2^64-1,...) and to file-size-relative values, every value-type/array-type/tensor-kind code, every truncation of the file, each of 15 well-known keys re-typed to each of the 13 value types, and pairs: every string/key length set to the two's complement of the distance back to itself / its entry / the first entry / the counts together with an entry count and/or array count that never runs out (the rich files hold a 1030-element byte list and a 1030-element string list; of their element lengths every 97th resp. 211th is swept). Random: PRNG(seed,'C10',i) valid file (random version/endianness/extra KVs/tensors with hostile dims and kinds) with 1-3 mutations (hostile field value, bit flip, truncation). Each input is decoded with maxArraySize 0 and -1 and, if decoding succeeds, the accessors the server calls on untrusted files at create/show time are invoked. Oracle: no panic (recovered, site recorded), termination on logical steps (the decoder reads through a counting reader: more than 64 read/seek calls per input byte + 100000 = does not terminate; walking a decoded file by the reported end offset must not revisit a position), allocation per call <= 64 x len(input) + 8 MiB (runtime/metrics heap allocs), the process (ulimit -v 2 GiB) survives; each input is journalled before the call. Non-trivial & distinct = distinct (mutation kind, field kind, outcome in {decoded, error}) classes plus distinct error texts")
 	rep.Set("assumptions", []string{"the accessor battery is the set the server calls on untrusted files during create/show (Architecture, Kind, FileType, ChatTemplate, ParameterCount, BlockCount, ..., Tensors().Items() Size/Type, GroupLayers)", "load-time paths (GraphSize, tokenizer arrays) are not part of create/show and are not driven"})
 	var cases []c10Case
 	r0 := kit.NewRand(3, "c10-bases")
